@@ -10,25 +10,44 @@ from props import _identity  # noqa: E402
 ID = 'C10'
 # modules whose functions must not keep state between calls (pyvc.statecheck.hidden_state_census, syntactic)
 HIDDEN_STATE_MODULES = ['src.ir.type_utils', 'src.ir.types']
-LEVEL = 'exploration'
+LEVEL = 'proof'
 SIDECARS = ['types_sub', 'types_ctor', 'cfg_common', 'switches', 'unify']
 FUNCTIONS = ['src.ir.type_utils._update_type_var_map',
+             'src.ir.type_utils.unify_types',
+             'src.ir.types.Variance.__eq__',
              # the variable-free approximation of a bound that unify_types checks assigned types against (get_bound_rec)
              'src.ir.types._to_type_variable_free']
 # the switch invariants J1/J2 at that construction site are C17's clauses (one of them is a C17 known finding)
 IGNORE_OBLIGATIONS = [r'/inv\[J[12]\]$']
 ASSUMPTIONS = [
-    'proved (small part): the binding helper _update_type_var_map refuses exactly the bindings that would give a variable a '
-    'second, different type, records the others and leaves every other binding alone. unify_types itself is NOT under a '
-    'deductive contract (DESIGN 10.3: its clauses speak about the final assignment and the match relation is not monotone '
-    'under extension of the map); everything about it is the bounded part: the oracle is an independent term-level matcher '
-    'written from the property statement',
+    'proved: (1) the binding helper _update_type_var_map refuses exactly the bindings that would give a variable a second, '
+    'different type, records the others and leaves every other binding alone; (2) unify_types, slice mode, obligations at '
+    'every binding site and every return statement: a pattern variable is bound only to the target component at the SAME '
+    'argument position (use-site projections are unwrapped pairwise and only when their kinds are equal), and only if the '
+    'type system answered that the component is a subtype of the variable\'s bound (declared, or resolved by get_bound_rec); '
+    'recursion is only on the components at the same position (pattern component or the bound of the pattern variable) or, '
+    'in supertype mode, on the last declared supertype of the target; bindings of a recursive call enter the result only '
+    'through _update_type_var_map (conflict check); the result map is filled nowhere else; a non-empty result for two '
+    'instantiations requires equal generic classes.  NOT proved (bounded part): that applying the final assignment to the '
+    'pattern yields the target (needs induction over the type structure), the open-variable clause; the oracle is an '
+    'independent term-level matcher written from the property statement',
 ]
-NOT_UNDER_CONTRACT = ['src.ir.type_utils.unify_types']
+NOT_UNDER_CONTRACT = []
 SIDECARS = SIDECARS + [x for x in _identity.SIDECARS if x not in SIDECARS]
 FUNCTIONS = FUNCTIONS + [f for f in _identity.FUNCTIONS if f not in FUNCTIONS]
-TRUSTED = ['dictionary keys: two type parameters are the same key iff they are the same object / equal value of the model '
+TRUSTED = ['unify_types is verified in slice mode (DESIGN 2.7) under the assumption that its callees (is_subtype, '
+           'has_type_variables, get_bound_rec, the recursive calls) do not modify existing types (immutable_fields of the '
+           'profile); WithinBound is given by introduction rules over the answers of the real is_subtype (Sub by C06)',
+           'dictionary keys: two type parameters are the same key iff they are the same object / equal value of the model '
            '(hash consistency of IR objects assumed); PyEq is the answer of the IR\'s own __eq__']
+
+def custom_proof(tier):
+    """the binding-site obligations speak about the RESULT only if the map is filled nowhere else (syntactic)"""
+    from pyvc import statecheck, frontend
+    fe = frontend.Frontend(os.environ.get('HEPH_REPO', '/repo'))
+    return statecheck.result_through_sites(fe, 'src.ir.type_utils.unify_types', 'type_var_map',
+                                           allowed_callees=('_update_type_var_map',), every_return=False)
+
 
 from props import C10_bounded as _b   # noqa: E402
 bounded = _b.bounded
